@@ -385,3 +385,94 @@ func (r *c09Run) sweepSharp() {
 	c.Ev.Coverage["sharp_cases"] = len(cases)
 	c.Ev.Coverage["sharp_model_agree"] = agree
 }
+
+// sweepCursor: control strings made of ~a and ~n* / ~n:* / ~n@* with the integers 0..len-1 as
+// arguments against `tot cursor`: the digits printed are the argument indices the model's cursor
+// takes; where the model raises the implementation raises.
+func (r *c09Run) sweepCursor() {
+	c := r.c
+	nums := []string{"0", "1", "2", "3", "5", "9", "10", "11", "255", "4294967295", "4294967296", "9223372036854775806", "9223372036854775807", "9223372036854775808", "18446744073709551616"}
+	n := c.Scale(6000, 60000)
+	var cases []c09Case
+	var reqs []string
+	for i := 0; i < n; i++ {
+		ln := c.Rng.Intn(8)
+		var ctl, ops []string
+		for k, m := 0, 1+c.Rng.Intn(7); k < m; k++ {
+			if c.Rng.Chance(55) {
+				ctl, ops = append(ctl, "~a"), append(ops, "a")
+				continue
+			}
+			num := nums[c.Rng.Intn(6)]
+			if c.Rng.Chance(15) {
+				num = nums[c.Rng.Intn(len(nums))]
+			}
+			if c.Rng.Chance(12) {
+				num = "-" + num
+			}
+			switch c.Rng.Intn(3) {
+			case 0:
+				ctl, ops = append(ctl, "~"+num+"*"), append(ops, "s"+num)
+			case 1:
+				ctl, ops = append(ctl, "~"+num+":*"), append(ops, "b"+num)
+			default:
+				ctl, ops = append(ctl, "~"+num+"@*"), append(ops, "g"+num)
+			}
+		}
+		args := ""
+		for a := 0; a < ln; a++ {
+			args += " " + strconv.Itoa(a)
+		}
+		cases = append(cases, c09Case{"E", "(format nil " + c09LispString(strings.Join(ctl, "")) + args + ")"})
+		reqs = append(reqs, fmt.Sprintf("tot cursor %d %s", ln, strings.Join(ops, ",")))
+	}
+	saved := r.eng
+	r.eng = r.eng.Confirming()
+	r.eng.Deadline, r.eng.KeepText, r.eng.KillBudget = saved.Deadline, true, saved.KillBudget
+	obs := r.explore(c09Chunk(cases, 1000), nil, nil)
+	r.eng = saved
+	var replies []string
+	if c.ModelBin != "" {
+		replies = c.Model(reqs)
+	}
+	agree, raises := 0, 0
+	for i := range cases {
+		ob := obs[i/1000][i%1000]
+		r.countCase(true)
+		if ob.Kind != "" {
+			r.report(fmt.Sprintf("format-cursor kind=%s", ob.Kind), false, cases[i].Text, "E", ob, reqs[i])
+			continue
+		}
+		if replies == nil {
+			continue
+		}
+		rep := replies[i]
+		f := strings.Fields(rep)
+		bad := ""
+		switch {
+		case strings.HasPrefix(rep, "err") || len(f) < 3:
+			bad = "the model reaches its fault outcome"
+		case f[1] == "raise":
+			raises++
+			if ob.Res.Status == "V" {
+				bad = "the model's cursor leaves the arguments (raise), the implementation returned a value"
+			}
+		case f[1] == "done" && len(f) == 4:
+			want := strings.ReplaceAll(strings.ReplaceAll(f[2], ".", ""), "-", "")
+			if ob.Res.Status != "V" || ob.Res.Text != "\""+want+"\"" {
+				bad = "the arguments printed differ from the indices the model's cursor takes (" + want + ")"
+			}
+		}
+		if bad != "" {
+			c.Report("format-cursor-model aspect=arguments", false, map[string]any{
+				"input": map[string]any{"kind": "E", "text": cases[i].Text}, "request": reqs[i],
+				"observed": ob.Res.Summary(), "expected": rep + ": " + bad, "expected_from": "model:tot.cursor",
+				"relies_on": []string{"SlipVerif.Theorems.C09Stack.cursor_run_total"}})
+			continue
+		}
+		agree++
+	}
+	c.Ev.Coverage["cursor_cases"] = len(cases)
+	c.Ev.Coverage["cursor_model_agree"] = agree
+	c.Ev.Coverage["cursor_model_raises"] = raises
+}
